@@ -7,7 +7,7 @@ import json, pathlib, shutil, sys
 
 VERIF = pathlib.Path(__file__).resolve().parent.parent
 
-def main(resdir):
+def main(resdir, srcpat="/tmp/seed-{prop}-out", tag=""):
     kept = []
     for rf in sorted(pathlib.Path(resdir).glob("C*-m*.json")):
         try:
@@ -16,11 +16,12 @@ def main(resdir):
             continue
         name = rf.stem            # Cnn-mi
         prop, mi = name.split("-")
-        src = pathlib.Path(f"/tmp/seed-{prop}-out")
+        src = pathlib.Path(srcpat.format(prop=prop))
         ok = r.get("demo_clean", {}).get("rc") == 0 and r.get("demo_mutated", {}).get("rc") == 1 and r.get("suite", {}).get("rc", 0) == 0 and not r.get("error")
         if not ok or not (src / f"{mi}.diff").exists():
             print("skip", name, r.get("error"))
             continue
+        name = f"{prop}-{tag}{mi}" if tag else name
         dst = VERIF / "seeded" / name
         dst.mkdir(parents=True, exist_ok=True)
         shutil.copy(src / f"{mi}.diff", dst / "patch.diff")
@@ -52,4 +53,4 @@ def main(resdir):
         print(*k)
 
 if __name__ == "__main__":
-    main(sys.argv[1])
+    main(sys.argv[1], *(sys.argv[2:4]))
